@@ -93,6 +93,18 @@ void ob_c08c_dtype(const NARR23<ET>& a, long init)
 template void ob_c08c_dtype<signed char>(const NARR23<signed char>&, long);
 template void ob_c08c_dtype<unsigned char>(const NARR23<unsigned char>&, long);
 template void ob_c08c_dtype<short>(const NARR23<short>&, long);
+// ---- dtype of accumulations: the running fold runs in the requested result type
+template <class ET>
+void ob_c08c_dtype_acc(const NARR23<ET>& a)
+{ PIN(a, 2,3);
+    constexpr long tag = sizeof(ET) * 10 + (std::is_signed_v<ET> ? 1 : 0);
+    { VIEW(v, view::cumsum(a, 1, nm::int64)); EXPECT_VIEW2("C08.view.dtype.cumsum_shape", "C08.view.dtype.running_fold_runs_in_the_result_type", v, 2,3, FOLDN(j+1, (long)a(i,t), acc + (long)a(i,t)), tag); }
+    { VIEW(v, view::cumprod(a, -2, nm::int64)); EXPECT_VIEW2("C08.view.dtype.cumprod_shape", "C08.view.dtype.running_fold_runs_in_the_result_type", v, 2,3, FOLDN(i+1, (long)a(t,j), acc * (long)a(t,j)), tag+100); }
+    { VIEW(v, view::accumulate_subtract(a, -1, nm::int64)); EXPECT_VIEW2("C08.view.dtype.accumulate_shape", "C08.view.dtype.running_fold_runs_in_the_result_type", v, 2,3, FOLDN(j+1, (long)a(i,t), acc - (long)a(i,t)), tag+200); }
+}
+template void ob_c08c_dtype_acc<signed char>(const NARR23<signed char>&);
+template void ob_c08c_dtype_acc<unsigned char>(const NARR23<unsigned char>&);
+template void ob_c08c_dtype_acc<short>(const NARR23<short>&);
 // ---- other operations: the non-commutative one (order), product, maximum / minimum
 void ob_c08c_ops(const ARR<2,3>& a, long init)
 { PIN(a, 2,3);
